@@ -99,7 +99,7 @@ def calcFn (m : Mgr) (fn : String) (args : List V) : R :=
         .ok (.timeSpan (1000000 * ((((v1 * 24 + v2) * 60 + v3) * 60 + v4) * 1000 + v5)))
   else if fn == "Date" then
     if n < 1 || n > 7 then wrongCount
-    else if n == 1 then withLong m fn args (p 0) fun v => .ok (.dateTime v.toInt 0)
+    else if n == 1 then withLong m fn args (p 0) fun v => .ok (.dateTime (unixSec v) 0)
     else
       withInt m fn args (p 0) fun y => withInt m fn args (p 1) fun mo =>
       withInt m fn args (if n > 2 then p 2 else .int 1) fun d =>
